@@ -421,10 +421,19 @@ func TestC19Ws(t *testing.T) {
 
 	// (1c) the upper end of the body range (1 MiB and just below, the largest envelope the property covers),
 	// on a connection whose read limit the caller has lifted: written, read, equal; then a small one behind it
+	// (spread over the rig's index space, one every 400 cases: ./check evaluates contiguous chunks in parallel)
+	var wsEdge []wsScenario
 	for _, g := range genEdgeEnvelopes(newRand(1912)) {
 		tail := genEnv{E: &Rpc{Id: 4, Header: &goatorepo.RequestHeader{Method: "/s/m", Source: "a"}, Body: &goatorepo.Body{Data: []byte("after")}}}
-		emit(wsScenario{Acts: []wsAct{{Op: "W", E: 0}, {Op: "W", E: 1}, {Op: "R"}, {Op: "R"}}, Envs: []genEnv{g, tail}, Limit: -1, Tag: "edge-size"})
+		wsEdge = append(wsEdge, wsScenario{Acts: []wsAct{{Op: "W", E: 0}, {Op: "W", E: 1}, {Op: "R"}, {Op: "R"}}, Envs: []genEnv{g, tail}, Limit: -1, Tag: "edge-size"})
 	}
+	emitWsEdge := func() {
+		if len(wsEdge) > 0 {
+			emit(wsEdge[0])
+			wsEdge = wsEdge[1:]
+		}
+	}
+	emitWsEdge()
 
 	// (2) every short sequence over the action alphabet
 	small := []genEnv{{E: &Rpc{Id: 7, Header: &goatorepo.RequestHeader{Method: "/s/m", Source: "a", Destination: "b"}, Body: &goatorepo.Body{Data: []byte("payload")}}},
@@ -441,6 +450,9 @@ func TestC19Ws(t *testing.T) {
 	rec = func(prefix []wsAct) {
 		if len(prefix) > 0 {
 			emit(wsScenario{Acts: prefix, Envs: small, Limit: -1, Tag: fmt.Sprintf("enum-len%d", len(prefix))})
+			if idx%400 == 200 {
+				emitWsEdge()
+			}
 		}
 		if len(prefix) >= maxLen {
 			return
@@ -464,6 +476,9 @@ func TestC19Ws(t *testing.T) {
 	}
 	rec(nil)
 
+	for len(wsEdge) > 0 {
+		emitWsEdge()
+	}
 	// (3) seeded random longer sequences with raw frames from the wire corners and mutations
 	nrand := 150
 	if thorough() {
